@@ -14,3 +14,14 @@ for p in (VERIF, REPO, os.path.join(VERIF, 'env', 'stubs')):
 os.environ.setdefault('JAX_PLATFORMS', 'cpu')
 os.environ.setdefault('TF_CPP_MIN_LOG_LEVEL', '3')
 from env import pbgen  # noqa: E402  (installs the finder)
+
+
+def post_import():
+  """Call after importing vizier modules: in the sym back end, rebinds their well-known-type module globals."""
+  if os.environ.get('PB_BACKEND') != 'sym':
+    return
+  from env import symproto
+  mods = [m for name, m in list(sys.modules.items())
+          if name.startswith('vizier.') and m is not None and any(
+              hasattr(m, a) for a in ('any_pb2', 'timestamp_pb2', 'duration_pb2', 'empty_pb2', 'operations_pb2', 'status_pb2'))]
+  symproto.install_wkt(*mods)
